@@ -1540,6 +1540,24 @@ def convert_from_interleaved(args):
     if nargs % 2 == 1:
         # has output specified
         eq += f"->{''.join(symbol_map[ix] for ix in args[-1])}"
+    else:
+        # implicit output: like numpy this is any ellipsis followed by the
+        # indices that appear once, sorted by their *label* - which is not
+        # the order of the symbols they have just been mapped to
+        counts = collections.Counter(
+            ix for term in inputs for ix in term if ix is not ...
+        )
+        once = [ix for ix, c in counts.items() if c == 1]
+        try:
+            once.sort()
+        except TypeError:
+            # labels are not comparable, fallback to order of appearance
+            pass
+        if len(counts) != len(symbol_map):
+            eq += "->..."
+        else:
+            eq += "->"
+        eq += "".join(symbol_map[ix] for ix in once)
     return eq, arrays
 
 
